@@ -1,0 +1,14 @@
+//go:build verif
+
+package util
+
+import "sync"
+
+// SimHook is set by the deterministic-simulation harness.
+var SimHook func(site string, once *sync.Once)
+
+func simPoint(site string, once *sync.Once) {
+	if h := SimHook; h != nil {
+		h(site, once)
+	}
+}
